@@ -15,6 +15,7 @@ import (
 
 	"github.com/internetarchive/Zeno/internal/pkg/archiver"
 	"github.com/internetarchive/Zeno/internal/pkg/config"
+	"github.com/internetarchive/Zeno/internal/pkg/postprocessor/domainscrawl"
 	"github.com/internetarchive/Zeno/pkg/models"
 )
 
@@ -42,6 +43,7 @@ type scaInput struct {
 	EH    []string `json:"eh,omitempty"`
 	ES    []string `json:"es,omitempty"`
 	RE    []string `json:"re,omitempty"`
+	DC    []string `json:"dc,omitempty"` // --domains-crawl: the archiver asks domainscrawl.Enabled(); it must not make the client follow anything
 	Seed  string   `json:"seed"`
 	St    int      `json:"st"`
 	Loc   string   `json:"loc,omitempty"`
@@ -151,6 +153,14 @@ func execScopeArch(input string) Result {
 		return out
 	}
 	in.IH, in.IS, in.EH, in.ES = subAll(in.IH), subAll(in.IS), subAll(in.EH), subAll(in.ES)
+	domainscrawl.Reset()
+	if len(in.DC) > 0 {
+		if err := domainscrawl.AddElements(subAll(in.DC)); err != nil {
+			domainscrawl.Reset()
+			return Result{Term: scaTerm(&scaInput{}, nil, nil), Tags: []string{"bad-input"}}
+		}
+	}
+	defer domainscrawl.Reset()
 	loc, loc2 := sub(in.Loc), sub(in.Loc2)
 	redirect := in.St >= 300 && in.St < 400 && loc != ""
 
@@ -228,6 +238,9 @@ func execScopeArch(input string) Result {
 	if in.C != "" {
 		tags = append(tags, "scenario:"+in.C)
 	}
+	if len(in.DC) > 0 {
+		tags = append(tags, "domains-crawl:enabled")
+	}
 	if !back {
 		tags = append(tags, "item-not-back-in-30s")
 	}
@@ -248,6 +261,8 @@ var scaScenarios = []scaInput{
 	{C: "target-out-of-scope:include-host-port", IH: []string{"{H}"}, Seed: "/start.html", Loc: "http://{H2}/x.html"},
 	{C: "target-out-of-scope:second-hop", ES: []string{"/private/"}, Seed: "/start.html", Loc: "/hop.html", Loc2: "/private/y.html"},
 	{C: "target-out-of-scope:absolute-same-host", ES: []string{"sessionID="}, Seed: "/login", Loc: "http://{H}/login?sessionID=abc123"},
+	{C: "target-out-of-scope:include-host-port+domains-crawl", IH: []string{"{H}"}, DC: []string{"127.0.0.2"}, Seed: "/start.html", Loc: "http://{H2}/x.html"},
+	{C: "target-out-of-scope:include-string+domains-crawl", IS: []string{"/keep/"}, DC: []string{"127.0.0.2", "http://{H}"}, Seed: "/keep/start.html", Loc: "/other/x.html"},
 	{C: "target-in-scope", ES: []string{"/private/"}, Seed: "/start.html", Loc: "/next.html"},
 	{C: "target-in-scope:no-filter", Seed: "/a/", Loc: "/a/index.html"},
 	{C: "no-redirect", ES: []string{"/private/"}, Seed: "/page.html"},
@@ -274,7 +289,7 @@ func init() {
 		CaseType: "arcase",
 		Footer:   "\nDefinition DIFF := Eval vm_compute in adiffs cases.\nPrint DIFF.\nDefinition MON := Eval vm_compute in amons cases.\nPrint MON.\n",
 		Rule: "one case = one pre-processed item sent through the real archiver (sync or async WARC writing, one process per mode) to a local origin that answers 301/302/303/307/308 with a Location " +
-			"out of the operator's scope (exclude-string, exclusion regex, include-string, exclude/include host by port, second hop, absolute same-host) or in scope, or 200/404/500; the origin logs every arriving request; " +
+			"out of the operator's scope (exclude-string, exclusion regex, include-string, exclude/include host by port, second hop, absolute same-host; two with --domains-crawl naming the origin) or in scope, or 200/404/500; the origin logs every arriving request; " +
 			"non-trivial when the answer was a redirection to an out-of-scope URL",
 		Setup:    setupScopeArch,
 		Gen:      genScopeArch,
